@@ -329,8 +329,10 @@ func Scenarios(tier string) []run.Scenario {
 		}
 	}
 	add(Params{Name: "no-replayer-cancel", PreInit: true, Preempt: -1, NoReplayer: true, Subs: []SubP{{Topics: tA, Cancel: true}, {Topics: tAB}},
-		Pubs: [][]MsgP{{{Tag: "m1", Topics: tA}, {Tag: "m2", Topics: tB}}, {{Tag: "m3", Topics: tAB}, {Tag: "m4", Topics: tA}}}})
+		Pubs: [][]MsgP{{{Tag: "m1", Topics: tA}, {Tag: "m2", Topics: tB}, {Tag: "m3", Topics: tAB}}}})
 	if tier == "thorough" {
+		add(Params{Name: "no-replayer-cancel-two-publishers", PreInit: true, Preempt: -1, NoReplayer: true, Subs: []SubP{{Topics: tA, Cancel: true}, {Topics: tAB}},
+			Pubs: [][]MsgP{{{Tag: "m1", Topics: tA}, {Tag: "m2", Topics: tB}}, {{Tag: "m3", Topics: tAB}, {Tag: "m4", Topics: tA}}}})
 		for _, slow := range bools {
 			for cancelWho := 0; cancelWho <= 3; cancelWho++ {
 				add(Params{Name: fmt.Sprintf("three-cancel%d-slow%v", cancelWho, slow), PreInit: true, Preempt: -1,
